@@ -156,7 +156,7 @@ def std_block_mode_mod(crate, direction, file, step, *, iv_fields=('iv',), backe
         Sel('impl ParBlocksSizeUser for ' + backend),
         Sel('impl %s for %s' % (backend_trait, backend),
             members=backend_members('%s(self.%s.%s())' % (step, cipher_field, cfn), iv_fields),
-            fns=backend_fns),
+            fns=backend_fns, rest_props=tuple(props_rec)),
     ]
     items += list(extra_items)
     return Mod(modname, file, uses=uses or '', items=items)
